@@ -243,6 +243,8 @@ pub fn run(run: &mut Run) {
     }
     let (lanes, n) = if run.thorough() { (16, 3000) } else { (16, 150) };
     run_tapes(run, lanes, n, 900, &check_random);
+    // thorough only: coverage-guided search over generator tapes with the same oracle
+    crate::fuzzstage::fuzz_tapes(run, 900, 120);
 }
 
 pub fn replay(case: &serde_json::Value) -> CheckResult {
